@@ -86,6 +86,25 @@ def run(ctx: Ctx) -> Result:
             st2, it2, o2 = run_s(P(sa) + P(R) + P(t2) + op('DECRYPT_ADAPTER_SIG'))
             if st2 == 'OK' and len(it2) == 2 and ref_verify(X, m, it2[0] + it2[1]):
                 viol('decryption with another scalar verifies', {'script': dc.hex()}, 'not a signature', o2)
+    # the cache-copy flags (3..9) only decide what is *also* copied into the cache: with any of them off the instructions return the
+    # same stack items
+    for it in range(ctx.n(24, 200)):
+        seed = V.rbytes(rng, 32); sk = SigningKey(seed); X = bytes(sk.verify_key); m = V.rbytes(rng, rng.choice([1, 20, 64]))
+        t_raw = V.rbytes(rng, 32); t = clamp(t_raw); Tp = nb.crypto_scalarmult_ed25519_base_noclamp(t)
+        cfg2 = vmrun.Cfg(); cfg2.mask = 2047 ^ rng.choice([1 << 7, 1 << 9, (1 << 7) | (1 << 9), 0b1111111000, 1 << 3, 1 << 8, (1 << 4) | (1 << 6)])
+        res.note_case(('flags-off', cfg2.mask, seed, m, t_raw))
+        mk = P(seed) + P(m) + P(Tp) + op('MAKE_ADAPTER_SIG_PUBLIC')
+        o = vmrun.run_impl(cfg2, {}, mk); f = vmrun.fields(o)
+        items = [] if f.get('stack', '-') in ('-', '?') else [bytes.fromhex(x) if x != 'e' else b'' for x in f['stack'].split(',')]
+        lines.append(({}, mk))
+        if f['status'] != 'OK' or len(items) != 2:
+            viol(f'MAKE_ADAPTER_SIG_PUBLIC with integer flags {cfg2.mask:011b}', {'script': mk.hex(), 'cfg': cfg2.line()}, 'R and sa on the stack (as with all flags on)', o); continue
+        R, sa = items
+        dc = P(sa) + P(R) + P(t_raw) + op('DECRYPT_ADAPTER_SIG')
+        o = vmrun.run_impl(cfg2, {}, dc); f = vmrun.fields(o)
+        items = [] if f.get('stack', '-') in ('-', '?') else [bytes.fromhex(x) if x != 'e' else b'' for x in f['stack'].split(',')]
+        if f['status'] != 'OK' or len(items) != 2 or not ref_verify(X, m, items[0] + items[1]):
+            viol(f'DECRYPT_ADAPTER_SIG with integer flags {cfg2.mask:011b}', {'script': dc.hex(), 'cfg': cfg2.line(), 'message': m.hex(), 'key': X.hex()}, '(R+T, sa+t) on the stack, a valid signature', o)
     # degenerate tweak points (the neutral element, points of order 2 / 4 / 8): an adapter made or accepted for such a T would be
     # a plain signature (T = 0) or differ from one by a torsion point - neither instruction may produce / accept one
     small = ['0100000000000000000000000000000000000000000000000000000000000000', 'ecffffffffffffffffffffffffffffffffffffffffffffffffffffffffffffff7f',
